@@ -78,6 +78,23 @@ def ecdsa_sign(c, d, digest, k):
     return r.to_bytes(c["size"], "big") + s.to_bytes(c["size"], "big")
 
 
+def ecdsa_verify(c, Q, digest, sig):
+    n = c["n"]
+    sz = c["size"]
+    if len(sig) != 2 * sz:
+        return False
+    r, s_ = int.from_bytes(sig[:sz], "big"), int.from_bytes(sig[sz:], "big")
+    if not (1 <= r < n and 1 <= s_ < n):
+        return False
+    e = int.from_bytes(digest, "big")
+    nb = n.bit_length()
+    if len(digest) * 8 > nb:
+        e >>= len(digest) * 8 - nb
+    w = pow(s_, -1, n)
+    P = add(c, mul(c, e * w % n, base(c)), mul(c, r * w % n, Q))
+    return P is not None and P[0] % n == r
+
+
 # ------------------------------------------------------------------ RSA
 
 def _is_prime(n, rnd, rounds=24):
